@@ -570,15 +570,21 @@ var c16LowOrder = [][]byte{
 // c16Session is the scripted peer's own computation of the session (as MakeSecretConnection
 // does it), for its ephemeral key pair and the ephemeral key it received.
 func c16Session(conn io.ReadWriteCloser, locPub, locPriv, remPub *[32]byte) (sc *SecretConnection, challenge [32]byte, err error) {
+	dh, err := computeDHSecret(remPub, locPriv)
+	if err != nil {
+		return nil, challenge, err
+	}
+	return c16SessionDH(conn, locPub, remPub, dh)
+}
+
+// c16SessionDH: the session of a party that sent locPub, received remPub and takes dh for the
+// shared secret (an attacker who sent a low-order point knows it without any private key: zero).
+func c16SessionDH(conn io.ReadWriteCloser, locPub, remPub, dh *[32]byte) (sc *SecretConnection, challenge [32]byte, err error) {
 	lo, hi := sort32(locPub, remPub)
 	tr := merlin.NewTranscript("TENDERMINT_SECRET_CONNECTION_TRANSCRIPT_HASH")
 	tr.AppendMessage(labelEphemeralLowerPublicKey, lo[:])
 	tr.AppendMessage(labelEphemeralUpperPublicKey, hi[:])
 	locIsLeast := bytes.Equal(locPub[:], lo[:])
-	dh, err := computeDHSecret(remPub, locPriv)
-	if err != nil {
-		return nil, challenge, err
-	}
 	tr.AppendMessage(labelDHSecret, dh[:])
 	recvSecret, sendSecret := deriveSecrets(dh, locIsLeast)
 	copy(challenge[:], tr.ExtractBytes(labelSecretConnectionMac, 32))
@@ -607,13 +613,17 @@ func TestVerifC16Handshake(t *testing.T) {
 		eph, ephlen, auth int
 	}
 	var grid []hk
-	for e := 0; e <= 5; e++ {
+	for e := 0; e <= 6; e++ {
 		grid = append(grid, hk{e, 16, 0})
+	}
+	// every low-order point with an attacker who goes on over the all-zero secret
+	for i := range c16LowOrder {
+		grid = append(grid, hk{6, 100 + i, 0})
 	}
 	for _, l := range []int{0, 31, 32, 40} {
 		grid = append(grid, hk{3, l, 0})
 	}
-	for a := 1; a <= 9; a++ {
+	for a := 1; a <= 17; a++ {
 		grid = append(grid, hk{0, 32, a})
 	}
 	n := len(grid) + vg.Scale(40, 3000)
@@ -630,10 +640,10 @@ func TestVerifC16Handshake(t *testing.T) {
 		} else {
 			h = hk{0, []int{0, 16, 31, 32, 40}[r.Intn(5)], 0}
 			if r.Chance(50) {
-				h.eph = r.Intn(6)
+				h.eph = r.Intn(7)
 			}
 			if r.Chance(70) {
-				h.auth = r.Intn(10)
+				h.auth = r.Intn(18)
 			}
 		}
 		qvp, qpv := newC16Queue(), newC16Queue() // victim->peer, peer->victim
@@ -670,6 +680,7 @@ func TestVerifC16Handshake(t *testing.T) {
 			}
 		}
 		what := ""
+		var zeroPoint *[32]byte
 		sendEph := func(v []byte) {
 			bz, _ := protoio.MarshalDelimited(&gogotypes.BytesValue{Value: v})
 			qpv.mu.Lock()
@@ -698,6 +709,15 @@ func TestVerifC16Handshake(t *testing.T) {
 			}
 			sendEph(v)
 			what = fmt.Sprintf("peer sends its ephemeral key as a %d-byte value", h.ephlen)
+		case 6:
+			i := r.Intn(len(c16LowOrder))
+			if h.ephlen >= 100 && h.ephlen-100 < len(c16LowOrder) {
+				i = h.ephlen - 100
+			}
+			zeroPoint = &[32]byte{}
+			copy(zeroPoint[:], c16LowOrder[i])
+			sendEph(c16LowOrder[i])
+			what = fmt.Sprintf("peer sends low-order point %x and goes on with the all-zero shared secret (keys, challenge and its own signature derived from it)", c16LowOrder[i])
 		case 4:
 			what = "peer closes instead of sending an ephemeral key"
 		case 5:
@@ -707,6 +727,9 @@ func TestVerifC16Handshake(t *testing.T) {
 		claimed := peerKey.PubKey()
 		if h.eph != 4 && h.eph != 5 {
 			psc, chal, err := c16Session(pconn, pPub, pPriv, &vEph)
+			if zeroPoint != nil {
+				psc, chal, err = c16SessionDH(pconn, zeroPoint, &vEph, &[32]byte{})
+			}
 			if err == nil {
 				// another session of the same peer (other remote ephemeral key)
 				oPub, _ := genEphKeys()
@@ -751,6 +774,28 @@ func TestVerifC16Handshake(t *testing.T) {
 					pk = victimKey.PubKey()
 					claimed = pk
 					what += "; AuthSig claims the victim's own key, signed by the peer"
+				case 10, 11, 12, 13, 14, 15, 16, 17:
+					// a well-formed AuthSig with a genuine key and a malformed signature
+					who := "the peer's own key"
+					if h.auth < 14 {
+						pk = thirdKey.PubKey()
+						claimed = pk
+						who = "a third party's key"
+					}
+					switch (h.auth - 10) % 4 {
+					case 0:
+						sig = nil
+						what += "; AuthSig with " + who + " and an EMPTY signature"
+					case 1:
+						sig = sig[:63]
+						what += "; AuthSig with " + who + " and the peer's signature cut to 63 bytes"
+					case 2:
+						sig = append(sig, 0)
+						what += "; AuthSig with " + who + " and the peer's signature extended to 65 bytes"
+					case 3:
+						sig = make([]byte, 64)
+						what += "; AuthSig with " + who + " and an all-zero 64-byte signature"
+					}
 				}
 				if !nothing {
 					pbpk, _ := cryptoenc.PubKeyToProto(pk)
